@@ -182,10 +182,28 @@ def _nest_job(a):
             rc = 97
             break
         cs.append(c[nh:len(c) - nt])
+    # the same statements as a fragment (--frag): no function around them, the first line's indentation is the base, tabs in the output
+    colsf, fbase = [], 0
+    if rc == 0 and lang in ("C", "CPP") and i % 3 == 0:
+        rr = random.Random(seed * 7 + 1)
+        fb = rr.choice([2, 3, 5, 11])
+        ts = rr.choice([4, 8])
+        text, nh, nt = nest_render(lines, lang, random.Random(seed * 3), comments=False)
+        body = text.split("\n")[nh:nh + len(lines)]
+        body[0] = " " * fb + body[0].lstrip(" \t")
+        src = os.path.join(tmp, "n%d_f%s" % (i, NEST_EXT[lang]))
+        obs.write(src, "\n".join(body) + "\n")
+        obs.write(cfg, "indent_columns=%d\nindent_with_tabs=%d\noutput_tab_size=%d\nindent_class=true\nindent_else_if=%s\n" % (ic, rr.choice([1, 2]), ts, "true" if ei else "false"))
+        rc_, so, se = sh([unc, "-c", cfg, "-q", "-l", lang, "--frag", "-f", src], cwd=tmp, timeout=20)
+        os.unlink(src)
+        if rc_ == 0:
+            c = columns(obs.decode(so), ts)
+            if len(c) == len(lines):
+                colsf, fbase = c, fb + 1
     os.unlink(cfg)
     base = 1 + ic * (nh // 2)
     return {"id": "nest|%d" % i, "rc": rc, "lines": lines, "ic": ic, "base": base, "lang": lang, "seed": seed, "ei": ei,
-            "cols": cs[0] if rc == 0 else [], "cols2": (cs[1] if cs[1] == cs[2] else cs[2]) if rc == 0 else []}
+            "cols": cs[0] if rc == 0 else [], "cols2": (cs[1] if cs[1] == cs[2] else cs[2]) if rc == 0 else [], "colsf": colsf, "fbase": fbase}
 
 
 def run(ctx):
